@@ -230,6 +230,9 @@ class Package:
             if os.environ.get("VERIF_NO_HELPER_INLINING") != "1":
                 from .helpers import expand_new_private_helpers
                 tree = expand_new_private_helpers(tree, fn[:-3])
+            if os.environ.get("VERIF_NO_FOLD") != "1":
+                from .fold import fold_new_temporaries
+                tree = fold_new_temporaries(tree, fn[:-3])
             mi = ModuleInfo(fn[:-3], fn, path, src, tree)
             self.modules[mi.name] = mi
             self._index(mi)
